@@ -608,6 +608,13 @@ func (g *testGen) specialField(st types.Type, f *types.Var) string {
 
 // custom (entry-level) drivers: /verif/replay/drivers/<function>.go.tmpl, a Go test template
 // rendered with the model; helper functions: int, float, floats, bytes, has.
+// hasScenarioDriver: a driver template exists for the obligation's function (it can replay the function's scenario
+// on the real code even when the solver gave no model).
+func hasScenarioDriver(o *Obligation) bool {
+	_, err := os.Stat(filepath.Join(verifRoot(), "replay", "drivers", sanitize(shortFn(o.Ctx.fn))+".go.tmpl"))
+	return err == nil
+}
+
 func customReplay(o *Obligation, model map[string]string, repo, workdir string) *ReplayResult {
 	c := o.Ctx
 	name := sanitize(shortFn(c.fn))
